@@ -13,6 +13,9 @@
 //     start-up condition <field>!=nil, provided no entry point ever writes <field>;
 //   - a function literal is analysed where it is written, with the locks held there; the operand of
 //     a `go` statement starts with no locks and is attributed to the pseudo entry "<entry>+go";
+//   - a deferred call runs at function exit in LIFO order: it holds what was held when it was
+//     registered, is still held at every later exit, and is not released by a later-registered
+//     deferred Unlock (so `defer tail(); mu.Lock(); defer mu.Unlock()` runs tail() WITHOUT mu);
 //   - any mention of a function or method (call, method value, argument) counts as a call there;
 //   - calls through func-typed struct fields go to every function ever stored in that field;
 //   - interface calls go to every implementing type declared in the loaded packages (Fake* types
@@ -40,7 +43,7 @@ import (
 const modPath = "github.com/nginx/kubernetes-ingress/"
 
 var loadPatterns = []string{
-	"./internal/k8s", "./internal/configs", "./internal/healthcheck", "./internal/telemetry", "./internal/k8s/secrets",
+	"./internal/k8s", "./internal/configs", "./internal/healthcheck", "./internal/telemetry", "./internal/k8s/secrets", "./internal/nginx",
 }
 
 // owner types whose fields are the shared locations of interest
@@ -50,6 +53,9 @@ var ownerTypes = map[string]bool{
 	"k8s.Configuration":          true,
 	"secrets.LocalSecretStore":   true,
 	"k8s.LoadBalancerController": true,
+	// the Configurator's NGINX manager (config version counter, child process ids): reached through the
+	// nginx.Manager interface from Configurator.Reload and friends
+	"nginx.LocalManager": true,
 }
 
 type entrySpec struct {
@@ -579,9 +585,34 @@ func (a *analyzer) fieldKey(p *packages.Package, se *ast.SelectorExpr, anyOwner 
 // ---------------------------------------------------------------- per-function analysis
 
 type walker struct {
-	a *analyzer
-	n *node
-	p *packages.Package
+	a      *analyzer
+	n      *node
+	p      *packages.Package
+	defers []*deferItem
+}
+
+// A deferred call runs when the function returns, after every defer registered later (LIFO).
+// What it holds is therefore: what was held when it was registered, is still held at every exit
+// that follows the registration, and is not released by a deferred Unlock registered after it.
+type deferItem struct {
+	unlock  bool
+	lock    string
+	ex      bool
+	targets []*node
+	pos     token.Pos
+	regL    lockset
+	exitL   lockset
+	hasExit bool
+}
+
+func (w *walker) noteExit(L lockset) {
+	for _, d := range w.defers {
+		if !d.hasExit {
+			d.exitL, d.hasExit = L.clone(), true
+		} else {
+			d.exitL = intersect(d.exitL, L)
+		}
+	}
 }
 
 func (a *analyzer) analyse(n *node) {
@@ -592,6 +623,20 @@ func (a *analyzer) analyse(n *node) {
 	w := &walker{a: a, n: n, p: n.pkg}
 	L := lockset{}
 	w.block(n.body.List, &L)
+	w.noteExit(L)
+	for i := len(w.defers) - 1; i >= 0; i-- {
+		d := w.defers[i]
+		if d.unlock {
+			continue
+		}
+		h := intersect(d.exitL, d.regL)
+		for j := i + 1; j < len(w.defers); j++ {
+			if u := w.defers[j]; u.unlock {
+				h, _ = h.remove(u.lock, u.ex)
+			}
+		}
+		w.emitCall(d.targets, false, d.pos, h)
+	}
 }
 
 func (w *walker) emitAccess(field string, write bool, pos token.Pos, L lockset) {
@@ -673,6 +718,7 @@ func (w *walker) stmt(s ast.Stmt, L *lockset) {
 		for _, e := range v.Results {
 			w.expr(e, L, false)
 		}
+		w.noteExit(*L)
 	case *ast.SendStmt:
 		w.expr(v.Chan, L, false)
 		w.expr(v.Value, L, false)
@@ -824,6 +870,7 @@ func (w *walker) goOrDefer(call *ast.CallExpr, L *lockset, isGo bool) {
 				if !found {
 					w.a.unk(call.Pos(), "deferred "+op+" of "+lk+" without a matching Lock in this function")
 				}
+				w.defers = append(w.defers, &deferItem{unlock: true, lock: lk, ex: ex, pos: call.Pos()})
 			default:
 				w.a.unk(call.Pos(), "deferred "+op+" on a lock")
 			}
@@ -839,8 +886,9 @@ func (w *walker) goOrDefer(call *ast.CallExpr, L *lockset, isGo bool) {
 	}
 	if isGo {
 		w.emitCall(ts, true, call.Pos(), lockset{})
-	} else {
-		w.emitCall(ts, false, call.Pos(), *L)
+	} else if len(ts) > 0 {
+		// the arguments were evaluated here; the call itself runs at function exit (see analyse)
+		w.defers = append(w.defers, &deferItem{targets: ts, pos: call.Pos(), regL: L.clone()})
 	}
 }
 
